@@ -612,7 +612,7 @@ REFINED = ["gcd_ops.rs dispatch (gcd / gcd_ext over inline/heap operands) and IB
            "IBig::nth_root / sqrt / cbrt sign rules and panics",
            "no_std table estimator log2_fp8 / ceil_log2_fp8 over all u16, the u8 powering cases and the top-16-bit + shift lifting to wider integers (integer-level enclosure theorems by kernel evaluation)"]
 FRONTIER = ["gcd_ext_in_place buffer-length claims, what is left: the word loops inside lehmer_ext_step / add_signed_mul are modelled at value level (their results a*t0 + b*t1, c*t0 + d*t1, t0 + q*t1 are the next coefficients, proved <= lhs; the partial sums inside the in-place loops are not separately bounded) and the claim is proved at the exit of the main loop and for the returned |b|, not restated for every intermediate iteration (the invariant t1*x + t0*y = lhs is inductive, so it holds there too)",
-            "base ring/root.rs u64 Newton estimate stages (sqrt: three Newton steps on 1/sqrt(n) with s -= 10; cbrt: two steps with r - 1) and, through them, the u128 sqrt / cbrt steps: TOTALITY (no arithmetic overflow, i.e. the estimate is an under-estimate that fits) is proved for u8, u16, u32 (prim_root_u32_total, round 5) but NOT for u64 / u128: the interval argument used for u32 needs one kernel evaluation per value of the top half (2^32 of them for u64), and a coarser subdivision does not work because the safety margin (10 units in 2^32) is far below what interval arithmetic over a block of operands can resolve — it needs the analytic error recurrence of the Newton steps (quadratic convergence with the truncation errors of each wmul32_hi), which is not done. The routines are mirrored and executed with checked arithmetic (an overflow would print as `panic ArithmeticOverflow` and disagree with the real code), and their answers are proved to be the floor root whenever they answer (prim_sqrt_rem_sound, prim_cbrt_rem_sound, all widths incl. u128). `sqrt_rem_driver_spec` states sqrt_rem exactly as the driver runs it for the 64-bit word with this totality of the u64 / u128 routines as its ONLY hypothesis",
+            "base ring/root.rs u64 Newton estimate stages (sqrt: three Newton steps on 1/sqrt(n) with s -= 10; cbrt: two steps with r - 1): TOTALITY (no arithmetic overflow, i.e. the estimate is an under-estimate that fits) is proved for u8, u16, u32 (prim_root_u32_total, round 5) but NOT for the two u64 routines (u128 is proved total RELATIVE to them, see the end of this entry): the interval argument used for u32 needs one kernel evaluation per value of the top half (2^32 of them for u64), and a coarser subdivision does not work because the safety margin (10 units in 2^32) is far below what interval arithmetic over a block of operands can resolve — it needs the analytic error recurrence of the Newton steps (quadratic convergence with the truncation errors of each wmul32_hi), which is not done. The routines are mirrored and executed with checked arithmetic (an overflow would print as `panic ArithmeticOverflow` and disagree with the real code), and their answers are proved to be the floor root whenever they answer (prim_sqrt_rem_sound, prim_cbrt_rem_sound, all widths incl. u128). The u128 SQUARE-root step is proved to add no overflow of its own (prim_sqrt_u128_total_of_u64, round 5: u += s1, q*q, s -= 1 stay in range and the remainder carry after the c < 0 repair is never negative), so `sqrt_rem_driver_spec_u64` states sqrt_rem exactly as the driver runs it for the 64-bit word with ONE hypothesis: <u64>::normalized_sqrt_rem answers on normalised operands. Likewise the u128 CUBE-root step (prim_cbrt_u128_total_of_u64, round 5: every checked operation and both `as i128` casts in range, q <= B + 7, the `while r < 0` descent ends within 8 steps on normalised operands): u64::cbrt_rem and u128::cbrt_rem answer everywhere if <u64>::normalized_cbrt_rem answers on normalised operands. What is left as hypothesis is exactly: the two u64 Newton routines (normSqrtU64, normCbrtU64) do not overflow on normalised u64 operands",
             "the under-estimate margins and KBITS of the u128 steps inside Model/NT/PrimRoot.lean normSqrtU128 / normCbrtU128 (2^31, 2^33, 2^22, 2^44 shifts) are hand-written from KBITS = 32 / 22; the regenerated KBITS values are pinned (root_tables_regenerated) but the derived shift amounts are not regenerated as text",
             "f32 log2 first guesses of ilog: a parameter with the hypothesis the code asserts (base^est <= x)",
             "log2_bounds (std build, libm log2f): no theorem; the harness echoes the implementation's own bounds and the driver decides lb <= log2(x) <= ub exactly (certified interval squaring / exact powering) on every call — bit patterns are NOT compared, so a different valid estimator is accepted",
@@ -640,12 +640,12 @@ EXPLANATION = ("Lean theorems: gcd dispatch = Nat.gcd with the GcdZeroZero panic
                "ilog correction loops end at floor(log) for any admissible first guess; remove returns the exact multiplicity. "
                "log2_bounds enclosure is decided exactly per call by certified interval squaring / exact powering in the driver.")
 ASSUMPTIONS = ["mul/div/pow of UBig used inside nth_root, ilog and remove, and div_rem_in_place / sqr inside root::sqrt_rem, are exact (C01, C02)",
-               "the u64 Newton estimates and the u128 sqrt / cbrt steps of dashu-base never overflow (all primitive roots u8..u128 are proved sound; totality is proved for u8, u16, u32; for u64 / u128 an overflow would show as a correspondence disagreement and everything returned is checked against the floor-root relation per call)"]
+               "the u64 Newton estimates (normalized_sqrt_rem, normalized_cbrt_rem of u64) of dashu-base never overflow on normalised operands (all primitive roots u8..u128 are proved sound; totality is proved for u8, u16, u32, and for both u128 steps and all wrappers relative to the u64 routines; an overflow would show as a correspondence disagreement and everything returned is checked against the floor-root relation per call)"]
 LEVEL_TEXT = ("Machine-checked Lean 4 theorems over an executable model of gcd/gcd_ext dispatch and Bezout recovery, the Lehmer cofactor "
               "step and the complete multi-word Lehmer loops (gcd and extended gcd, proved to return and to be correct), the Newton nth-root iteration, "
               "Zimmermann's Karatsuba square root sqrt_rem / sqrt_rem_42 mirrored with every carry and proved for all lengths, sqrt_rem_large (de)normalisation, "
               "the primitive table/Newton roots and wrappers (sound for u8..u128 incl. the u128 cube-root step, total for u8/u16/u32; tables and margins regenerated from the source, Tie A), the ilog correction loops and remove; "
-              "totality (no overflow) of the u64 Newton stages and of the u128 steps built on them is mirrored and executed but not proved. The model is "
+              "totality (no overflow) of the two u64 Newton routines is mirrored and executed but not proved; the u128 square- and cube-root steps and all wrappers are proved to add no overflow of their own. The model is "
               "tied to /repo on every run by differential execution over structured operands (perfect powers +-1, size-class "
               "boundaries, quotient overflow, the Karatsuba q = B arm, exhaustive u8/u16) and by reading the lookup tables from the source; log2 bounds are echoed from the implementation and their enclosure of the true "
               "logarithm is decided with exact integer arithmetic on every call.")
@@ -660,6 +660,6 @@ THEOREMS = ["Dashu.Props.C12." + t for t in ["gcd_prim_spec", "trailing_zeros_or
             "log2_table_sound", "log2_u8_table_sound", "log2_wide_table_sound", "nth_root_zero_asIs_counterexample", "sqrt_rem_asIs_counterexample", "ibig_cbrt_asIs_counterexample",
             "ilog_zero_asIs_counterexample", "gcd_ext_post_precondition_counterexample",
             "zimmermann_step", "sqrt_rem_42_correct", "sqrt_rem_karatsuba_correct", "sqrt_rem_kernel_eq_spec", "sqrt_rem_mirrored_spec", "nth_root_mirrored_eq",
-            "fix_sqrt_error_sound", "fix_cbrt_error_sound", "prim_sqrt_rem_sound", "prim_cbrt_rem_sound", "prim_root_u8_total", "prim_root_u16_total", "prim_exact_of_total", "sqrt_rem_driver_spec", "prim_root_u32_total", "prim_sqrt_u32_exact", "cbrt_karatsuba_step", "root_tables_regenerated", "gcd_ext_cofactors_fit_partial", "gcd_ext_prim_cofactor_bounds", "gcd_ext_b_fits_partial", "gcd_ext_b_fits"]]
+            "fix_sqrt_error_sound", "fix_cbrt_error_sound", "prim_sqrt_rem_sound", "prim_cbrt_rem_sound", "prim_root_u8_total", "prim_root_u16_total", "prim_exact_of_total", "sqrt_rem_driver_spec", "prim_root_u32_total", "prim_sqrt_u32_exact", "cbrt_karatsuba_step", "root_tables_regenerated", "prim_sqrt_u128_total_of_u64", "sqrt_rem_driver_spec_u64", "prim_cbrt_u128_total_of_u64", "gcd_ext_cofactors_fit_partial", "gcd_ext_prim_cofactor_bounds", "gcd_ext_b_fits_partial", "gcd_ext_b_fits"]]
 USES_GEN = True
 READY = True
